@@ -111,12 +111,12 @@ and the verdict of the body by the C06 model of `ValidateRequestBody`, request v
 security passes, `ValidateParameter` accepts every styled parameter in effect — the operation's own plus the path-level
 ones not overridden by an operation parameter of the same name and location, minus the query parameters when they are
 excluded — and `ValidateRequestBody` accepts the body when one is declared and not excluded. -/
-theorem composed_accept_iff (o : Opts) (w : Wiring) (env : Env) (hx : exclNilAuthEmptyReq env (opOf w) = false) :
+theorem composed_accept_iff (o : Opts) (w : Wiring) (env : Env) :
     (validateRequest o (opOf w) env).isOk = true ↔
       SecSpec env (opOf w) ∧
       (∀ p ∈ sEffective o w, Style.validateParameter p (w.carry p) = .accept) ∧
       (∀ rb, w.body = some rb → o.excludeBody = false → bodyVerdict w rb = true) := by
-  rw [accept_iff_partial o (opOf w) env hx]
+  rw [accept_iff o (opOf w) env]
   unfold Accept
   rw [effective_map]
   constructor
@@ -145,7 +145,7 @@ property C06 says so (concluded by `Body.accept_iff_partial_D` outside C06's exc
 succeeds exactly when a security requirement is met, every parameter in effect decodes — as the inverse of the OpenAPI
 style serialisation — to a value satisfying its schema, and the body, read by the decoder of its media type, satisfies
 the schema read as a request. -/
-theorem composed_accept_iff_spec (o : Opts) (w : Wiring) (env : Env) (hx : exclNilAuthEmptyReq env (opOf w) = false)
+theorem composed_accept_iff_spec (o : Opts) (w : Wiring) (env : Env)
     (hParams : ∀ p ∈ sEffective o w, Style.validateParameter p (w.carry p) = Style.validateSpec p (w.carry p))
     (hBody : ∀ rb, w.body = some rb →
       ((Body.validateRequestBodyD w.reg rb w.ct w.bodyIn w.exro w.ds).isOk = true ↔ Body.Accept w.reg rb w.ct w.bodyIn w.exro)) :
@@ -153,7 +153,7 @@ theorem composed_accept_iff_spec (o : Opts) (w : Wiring) (env : Env) (hx : exclN
       SecSpec env (opOf w) ∧
       (∀ p ∈ sEffective o w, Style.validateSpec p (w.carry p) = .accept) ∧
       (∀ rb, w.body = some rb → o.excludeBody = false → Body.Accept w.reg rb w.ct w.bodyIn w.exro) := by
-  rw [composed_accept_iff o w env hx]
+  rw [composed_accept_iff o w env]
   constructor
   · rintro ⟨hs, hp, hb⟩
     exact ⟨hs, fun p hpm => by rw [← hParams p hpm]; exact hp p hpm,
@@ -215,17 +215,16 @@ example : validateRequest { multiError := true } (opOf (exWiring "5" none "{}" (
     .multi [.security, .param ⟨"h", .header, false⟩, .body] := by decide
 
 /-- non-vacuity of the hypotheses of `composed_accept_iff_spec`: on this wiring (the same parameters, a required JSON
-body whose media type declares no schema) both interface lemmas hold, the exclusion class is empty, and the request
+body whose media type declares no schema) both interface lemmas hold, and the request
 `?n=5`, `h: x`, body `{"a":1}` is accepted -/
 example :
     let w : Wiring := { exWiring "5" (some "x") "{\"a\":1}" (some (.obj [("a".toList, .int 1)])) with
       body := some ⟨true, [("application/json".toList, ⟨none, []⟩)]⟩ }
-    exclNilAuthEmptyReq exEnvC (opOf w) = false ∧
     (∀ p ∈ sEffective {} w, Style.validateParameter p (w.carry p) = Style.validateSpec p (w.carry p)) ∧
     (∀ rb, w.body = some rb →
       ((Body.validateRequestBodyD w.reg rb w.ct w.bodyIn w.exro w.ds).isOk = true ↔ Body.Accept w.reg rb w.ct w.bodyIn w.exro)) ∧
     (validateRequest {} (opOf w) exEnvC).isOk = true := by
-  refine ⟨by decide, by decide, ?_, by decide⟩
+  refine ⟨by decide, ?_, by decide⟩
   intro rb hrb
   simp only [Option.some.injEq] at hrb
   subst hrb
